@@ -342,7 +342,8 @@ theorem scratchOK_sseRadix4 (k b : Nat) (hb : b ∈ [12, 16, 24, 32]) : ScratchO
   split at hs
   · cases hs
   · simp only [Except.ok.injEq] at hs; subst hs
-    refine ⟨⟨?_, ?_, ?_⟩, fun _ => ⟨?_, ?_, ?_⟩⟩ <;> (try simp only [Recipe.len, specBfly]) <;> omega
+    refine ⟨⟨?_, ?_, ?_⟩, fun _ => ⟨?_, ?_, ?_⟩⟩ <;>
+      (try simp only [Recipe.len, specBfly, Gen.sseRadix4_inplace, Gen.sseRadix4_oop, Gen.sseRadix4_immut]) <;> omega
 
 theorem scratchOK_scalarClosed (ty : ElemTy) (hroot : ∀ p, Nat.Prime p → (primitiveRoot p).isSome = true) :
     ScalarClosed (ScratchOK ty) where
